@@ -75,6 +75,20 @@ def scenarios(dumps, tier, rng=None, syscfg=None):
     for nm, path in sorted((syscfg or {}).items()):
         if tier == "thorough" or nm in QUICK_SYS:
             sc.append(("wb_sys_os", nm.replace("xlat-", ""), "wb_sys_os @N @" + path))
+            if "ia32" in nm and "linux" in nm and not os.path.exists(path[:-4] + "-cr3err.cfg"):
+                # a register callback that fails outright: the set-up must fail and leave nothing
+                txt = "".join(l for l in open(path) if not l.startswith("O ")) + "Y ERR cr3 - 0\n"
+                o_ = [l for l in open(path) if l.startswith("O ")][0]
+                o_ = ",".join(x for x in o_.strip()[2:].split(",") if not x.startswith("rootpgt"))
+                with open(path[:-4] + "-cr3err.cfg", "w") as f:
+                    f.write("O " + o_ + "\n" + txt)
+            if "ia32" in nm and "linux" in nm:
+                sc.append(("wb_sys_os", nm.replace("xlat-", "") + "-cr3err", "wb_sys_os @N @" + path[:-4] + "-cr3err.cfg"))
+            if "ppc64" in nm:
+                # the application replaces the methods the set-up made (ppc64: the VMEMMAP lookup
+                # table belongs to the system), re-initialises, drops the system
+                for v in (1, 3, 7, 9):
+                    sc.append(("wb_sys_meth", "%s/%d" % (nm.replace("xlat-", ""), v), "wb_sys_meth @N %d @%s" % (v, path)))
     for o in ("arch=ppc64,ostype=linux,page_shift=16", "arch=x86_64,virt_bits=48", "arch=s390x,ostype=linux",
               "arch=aarch64,page_shift=12,virt_bits=48", "arch=x86_64,ostype=xen,osver=0x040003"):
         sc.append(("wb_sys_os", "nodata", "wb_sys_os @N " + o))
@@ -118,6 +132,11 @@ def scenarios(dumps, tier, rng=None, syscfg=None):
         ("wb_xlat", "-", "wb_xlat @N 0"), ("wb_xlat", "-", "wb_xlat @N 1"),
         ("wb_fcache_new", "-", "wb_fcache_new @N 2 4 2"),
         ("wb_cache_alloc", "-", "wb_cache_alloc @N 4 4096"),
+        # chunks crossing file-cache blocks whose buffers are not adjacent (copied out / entry array)
+        ("wb_chunk", "copy", "wb_chunk @N 10 0xf00 0x200"),
+        ("wb_chunk", "copy3", "wb_chunk @N 210 0xf00 0x1200"),
+        ("wb_chunk", "array", "wb_chunk @N 0123 0xf00 0x2200"),
+        ("wb_chunk", "mixed", "wb_chunk @N 0132 0xf00 0x2200"),
         ("wb_cache_alloc", "-", "wb_cache_alloc @N 4 0"),
         ("wb_pfn_regions", "-", "wb_pfn_regions @N 3000"),
         ("wb_dict", "-", "wb_dict @N 0"), ("wb_dict", "-", "wb_dict @N 1"),
